@@ -174,7 +174,7 @@ impl<'a> Enumerator<'a> {
     }
 
     /// "diagonal" product: the first encoding of every component, then one component varied at a time
-    fn product(&self, ids: &[u32], depth: usize) -> Option<Vec<Vec<u8>>> {
+    pub fn product(&self, ids: &[u32], depth: usize) -> Option<Vec<Vec<u8>>> {
         let mut per: Vec<Vec<Vec<u8>>> = vec![];
         for id in ids {
             let e = self.encodings(*id, depth.saturating_sub(if self.is_def(*id) { 1 } else { 0 }))?;
